@@ -47,12 +47,12 @@ def graph_case(r, n_files, edges, decl_counts, missing, decoys, spell_mode, incd
             else:
                 sp = os.path.relpath(dst, os.path.dirname(src) or '.')
         # non-canonical spellings of the same path: './x', 'd/../x' (d an existing directory next to the importer)
-        if r.random() < 0.3:
+        if mode == 'rel' and r.random() < 0.3:
             here = os.path.dirname(src)
             subdirs = sorted({os.path.relpath(os.path.dirname(q), here or '.').split(os.sep)[0] for q in paths
                               if os.path.dirname(q) != here and os.path.dirname(q).startswith(here + '/' if here else '') and os.path.dirname(q)})
             subdirs = [d for d in subdirs if d not in ('..', '.')]
-            if mode != 'cwd' or not here:
+            if True:
                 sp = (r.choice(subdirs) + '/../' + sp) if subdirs and r.random() < 0.6 else './' + sp
         bodies[src]['imports'].append(sp)
     for i in missing:
@@ -129,9 +129,7 @@ def classify(adj, root):
     return kind, set(paths_count), cyc
 
 
-def run(ctx):
-    r = random.Random(ctx.rng.random())
-    n = ctx.n(90, 900)
+def make_cases(r, n):
     cases, meta = [], []
     for i in range(n):
         nf = r.randint(1, 5)
@@ -174,6 +172,13 @@ def run(ctx):
             c['_parts'] = ('errors', 'def_names', 'imports')
         cases.append(c)
         meta.append((kind, reachable, cyc, miss, adj, shape))
+    return cases, meta
+
+
+def run(ctx):
+    r = random.Random(ctx.rng.random())
+    n = ctx.n(90, 900)
+    cases, meta = make_cases(r, n)
     mism, obs = kfront.run(ctx, 'c16', cases)
     if obs is None:
         return
